@@ -13,17 +13,22 @@ use std::collections::HashMap;
 use std::sync::Arc;
 
 pub struct ParsedMod {
+  pub raw_hash: String,
   pub media: MediaType,
   pub result: Result<Module, ModuleError>,
 }
 
 pub fn parse_world_module(world: &World, spec: &str, kind: u8) -> Option<ParsedMod> {
-  match world.entries.get(spec)? {
+  parse_world_module_at(world, spec, kind, false)
+}
+
+pub fn parse_world_module_at(world: &World, spec: &str, kind: u8, reload: bool) -> Option<ParsedMod> {
+  match world.entry(spec, reload)? {
     Entry::Module { headers, .. } => {
       let url = ModuleSpecifier::parse(spec).unwrap();
       let hm: Option<HashMap<String, String>> = headers.as_ref().map(|h| h.iter().cloned().collect());
       let (media, _) = resolve_media_type_and_charset_from_headers(&url, hm.as_ref());
-      let content: Arc<[u8]> = Arc::from(world.content(spec).unwrap());
+      let content: Arc<[u8]> = Arc::from(world.content_of(spec, reload).unwrap());
       let analyzer = deno_graph::ast::DefaultModuleAnalyzer;
       let result = futures::executor::block_on(parse_module(ParseModuleOptions {
         graph_kind: graph_kind(kind),
@@ -36,7 +41,8 @@ pub fn parse_world_module(world: &World, spec: &str, kind: u8) -> Option<ParsedM
         maybe_resolver: None,
         module_analyzer: &analyzer,
       }));
-      Some(ParsedMod { media, result })
+      let raw_hash = LoaderChecksum::r#gen(&world.content_of(spec, reload).unwrap());
+      Some(ParsedMod { media, result, raw_hash })
     }
     _ => None,
   }
@@ -73,6 +79,61 @@ pub fn spec_class(spec: &str) -> u64 {
   }
 }
 
+fn abs_entry(spec: &str, e: &Entry, pm: Option<&ParsedMod>, it: &mut Intern) -> Sx {
+  let sid = it.spec(spec);
+  match e {
+    Entry::Missing => Sx::atoms([0]),
+    Entry::Error => Sx::atoms([1]),
+    Entry::Redirect(to) => Sx::atoms([2, it.spec(to)]),
+    Entry::External => Sx::atoms([3, sid]),
+    Entry::Module { .. } => {
+      let pm = pm.unwrap();
+      let hr = it.misc(&format!("sha:{}", pm.raw_hash));
+      let (ok, mk, deps, tdep, ht) = match &pm.result {
+        Ok(m) => {
+          let mk = match m {
+            Module::Wasm(_) => 2,
+            Module::Json(_) => 1,
+            _ => 0,
+          };
+          let text_hash = match m {
+            Module::Wasm(w) => LoaderChecksum::r#gen(&w.source),
+            _ => LoaderChecksum::r#gen(m.source().map(|s| s.as_bytes()).unwrap_or(&[])),
+          };
+          let ht = it.misc(&format!("sha:{}", text_hash));
+          let deps = Sx::L(
+            m.dependencies()
+              .iter()
+              .map(|(text, d)| {
+                let one: indexmap::IndexMap<String, Dependency> = [(text.clone(), d.clone())].into_iter().collect();
+                let dsx = match abs_deps(&one, it) {
+                  Sx::L(mut v) => v.remove(0),
+                  x => x,
+                };
+                Sx::L(vec![dsx, Sx::b(dep_is_asset(d))])
+              })
+              .collect(),
+          );
+          let tdep = match m.js().and_then(|js| js.maybe_types_dependency.as_ref()) {
+            Some(td) => {
+              let tid = it.misc(&format!("text:{}", td.specifier));
+              Sx::opt(Some(Sx::L(vec![
+                Sx::A(tid),
+                Sx::b(td.specifier.to_lowercase().starts_with("file://")),
+                abs_res(&td.dependency, it),
+              ])))
+            }
+            None => Sx::opt(None),
+          };
+          (true, mk, deps, tdep, ht)
+        }
+        Err(_) => (false, 0, Sx::L(vec![]), Sx::opt(None), 0),
+      };
+      Sx::L(vec![Sx::A(4), Sx::A(sid), Sx::A(hr), Sx::A(ht), Sx::A(media_id(pm.media)), Sx::b(ok), Sx::A(mk), deps, tdep])
+    }
+  }
+}
+
 /// World in the wire format of RunC01.dec_world.
 pub fn abs_world(
   world: &World,
@@ -80,55 +141,26 @@ pub fn abs_world(
   max_redirects: usize,
   it: &mut Intern,
 ) -> Sx {
+  abs_world_full(world, parsed, &HashMap::new(), None, max_redirects, it)
+}
+
+pub fn abs_world_full(
+  world: &World,
+  parsed: &HashMap<String, ParsedMod>,
+  parsed_reload: &HashMap<String, ParsedMod>,
+  lock: Option<&std::collections::BTreeMap<String, String>>,
+  max_redirects: usize,
+  it: &mut Intern,
+) -> Sx {
   let mut resps = vec![];
   for (spec, e) in &world.entries {
-    let sid = it.spec(spec);
-    let r = match e {
-      Entry::Missing => Sx::atoms([0]),
-      Entry::Error => Sx::atoms([1]),
-      Entry::Redirect(to) => Sx::atoms([2, it.spec(to)]),
-      Entry::External => Sx::atoms([3, sid]),
-      Entry::Module { .. } => {
-        let pm = parsed.get(spec).unwrap();
-        let (ok, mk, deps, tdep) = match &pm.result {
-          Ok(m) => {
-            let mk = match m {
-              Module::Wasm(_) => 2,
-              Module::Json(_) => 1,
-              _ => 0,
-            };
-            let deps = Sx::L(
-              m.dependencies()
-                .iter()
-                .map(|(text, d)| {
-                  let one: indexmap::IndexMap<String, Dependency> = [(text.clone(), d.clone())].into_iter().collect();
-                  let dsx = match abs_deps(&one, it) {
-                    Sx::L(mut v) => v.remove(0),
-                    x => x,
-                  };
-                  Sx::L(vec![dsx, Sx::b(dep_is_asset(d))])
-                })
-                .collect(),
-            );
-            let tdep = match m.js().and_then(|js| js.maybe_types_dependency.as_ref()) {
-              Some(td) => {
-                let tid = it.misc(&format!("text:{}", td.specifier));
-                Sx::opt(Some(Sx::L(vec![
-                  Sx::A(tid),
-                  Sx::b(td.specifier.to_lowercase().starts_with("file://")),
-                  abs_res(&td.dependency, it),
-                ])))
-              }
-              None => Sx::opt(None),
-            };
-            (true, mk, deps, tdep)
-          }
-          Err(_) => (false, 0, Sx::L(vec![]), Sx::opt(None)),
-        };
-        Sx::L(vec![Sx::A(4), Sx::A(sid), Sx::A(media_id(pm.media)), Sx::b(ok), Sx::A(mk), deps, tdep])
-      }
-    };
-    resps.push(Sx::L(vec![Sx::A(sid), r]));
+    let r = abs_entry(spec, e, parsed.get(spec), it);
+    resps.push(Sx::L(vec![Sx::A(it.spec(spec)), r]));
+  }
+  let mut reloads = vec![];
+  for (spec, e) in &world.reload_entries {
+    let r = abs_entry(spec, e, parsed_reload.get(spec), it);
+    reloads.push(Sx::L(vec![Sx::A(it.spec(spec)), r]));
   }
   let classes = Sx::L(
     it.specs
@@ -138,7 +170,15 @@ pub fn abs_world(
       .collect(),
   );
   let files = Sx::atoms(it.specs.iter().filter(|(s, _)| s.starts_with("file:")).map(|(_, id)| *id));
-  Sx::L(vec![Sx::L(resps), classes, files, Sx::A(max_redirects as u64)])
+  let https = Sx::atoms(it.specs.iter().filter(|(s, _)| s.starts_with("http:") || s.starts_with("https:")).map(|(_, id)| *id));
+  let lock_sx = match lock {
+    None => Sx::opt(None),
+    Some(l) => {
+      let items: Vec<Sx> = l.iter().map(|(s, h)| Sx::atoms([it.spec(s), it.misc(&format!("sha:{}", h))])).collect();
+      Sx::opt(Some(Sx::L(items)))
+    }
+  };
+  Sx::L(vec![Sx::L(resps), Sx::L(reloads), classes, files, https, lock_sx, Sx::A(max_redirects as u64)])
 }
 
 fn abs_ref(r: Option<&Range>, it: &mut Intern) -> Sx {
@@ -154,6 +194,8 @@ pub fn abs_berr(e: &ModuleError, it: &mut Intern) -> Sx {
       let (tag, k) = match err {
         ModuleLoadError::Loader(_) => (1, 0),
         ModuleLoadError::TooManyRedirects => (1, 1),
+        ModuleLoadError::HttpsChecksumIntegrity(e) if e.actual.starts_with("Redirect to ") => (1, 2),
+        ModuleLoadError::HttpsChecksumIntegrity(_) => (1, 3),
         ModuleLoadError::Jsr(JsrLoadError::PackageFormat(_)) => (7, 0),
         ModuleLoadError::Npm(NpmLoadError::PackageReqReferenceParse(_)) => (7, 0),
         _ => (1, 9),
@@ -190,6 +232,10 @@ pub fn abs_berr(e: &ModuleError, it: &mut Intern) -> Sx {
 
 /// The real graph in the shape of RunC01.enc_bgraph.
 pub fn abs_bgraph(g: &ModuleGraph, log: &[LoadCall], it: &mut Intern) -> Sx {
+  abs_bgraph_full(g, log, &[], it)
+}
+
+pub fn abs_bgraph_full(g: &ModuleGraph, log: &[LoadCall], lock_sets: &[(String, String)], it: &mut Intern) -> Sx {
   let mut slots = vec![];
   for (s, e) in entries(g) {
     let sid = it.spec(s.as_str());
@@ -217,7 +263,14 @@ pub fn abs_bgraph(g: &ModuleGraph, log: &[LoadCall], it: &mut Intern) -> Sx {
       .map(|(k, imp)| Sx::L(vec![Sx::A(it.spec(k.as_str())), abs_deps(&imp.dependencies, it)]))
       .collect(),
   );
-  let loads = log.iter().map(|c| Sx::L(vec![Sx::A(it.spec(&c.specifier)), Sx::b(c.asset)])).collect();
+  let loads = log
+    .iter()
+    .map(|c| {
+      let ck = c.checksum.as_ref().map(|h| Sx::A(it.misc(&format!("sha:{}", h))));
+      Sx::L(vec![Sx::A(it.spec(&c.specifier)), Sx::b(c.asset), Sx::b(c.reload), Sx::opt(ck)])
+    })
+    .collect();
+  let sets = lock_sets.iter().map(|(s, h)| Sx::atoms([it.spec(s), it.misc(&format!("sha:{}", h))])).collect();
   Sx::L(vec![
     Sx::A(kind_id(g.graph_kind())),
     Sx::atoms(g.roots.iter().map(|r| it.spec(r.as_str()))),
@@ -226,6 +279,7 @@ pub fn abs_bgraph(g: &ModuleGraph, log: &[LoadCall], it: &mut Intern) -> Sx {
     imps,
     Sx::b(g.has_node_specifier),
     Sx::set(loads),
+    Sx::set(sets),
   ])
 }
 
